@@ -452,6 +452,27 @@ def _seq_rules(k: Kit, fi, field: str, encf: str, rule: str) -> None:
                       'zero store only on the fatal rollover path',
                       f'{field} reset to 0 outside NEWKEYS ∧ strict KEX',
                       k.loc(fi, n))
+    # converse: the ordinary advance is reached only when it is not
+    # (NEWKEYS and strict): no further condition may stand in the way of
+    # the reset
+    nk = _newkeys_strict_atoms('True')
+    sk = _newkeys_strict_atoms('strict')
+
+    def not_both(x: Node) -> Optional[bool]:
+        if nk(x) is True or sk(x) is True:
+            return False
+        return None
+    for n, v in k.stores_to(fi, field):
+        if v is None or (isinstance(v, ast.Constant) and v.value == 0):
+            continue
+        w = g.guarded_by(n.id, not_both)
+        rep.check(w is None, rule, key(fi, f'advance {field} only otherwise'),
+                  'the counter advances only when the packet is not a '
+                  'NEWKEYS under strict KEX',
+                  f'{field} can advance instead of restarting at a NEWKEYS '
+                  'under strict KEX (an extra condition on the reset): after '
+                  'a re-exchange the counters differ from a conforming '
+                  'peer\'s', k.loc(fi, n), g.describe_path(w) if w else None)
     rep.check(n_reset >= 1, rule, key(fi, f'has reset {field}'),
               'sequence number restarts at NEWKEYS under strict KEX',
               f'no reset of {field} at NEWKEYS under strict KEX',
@@ -648,33 +669,7 @@ def r3(k: Kit) -> None:
         (CONN + '_process_userauth_success', 'self._auth', True),
         (CONN + '_process_userauth_failure', 'self._auth', True),
     ]
-    for qual, field, want in STATE:
-        fi = k.func(qual)
-        g = k.cfg(fi)
-
-        def blocked(a, b, lab, field=field, want=want):
-            x = g.nodes[a]
-            if x.kind == 'atom' and dotted(x.ast) == field:
-                return lab is want
-            rl = role_of_edge(x, lab)
-            # `_wait == 'auth_methods'` early exit is a separate legal state
-            if rl and isinstance(x.ast, ast.Compare):
-                return True
-            return False
-        reach = g.reachable(g.entry, blocked_edge=blocked, follow_exc=False)
-        offenders = [(g.nodes[x], effects(g, g.nodes[x])) for x in sorted(reach)
-                     if effects(g, g.nodes[x])]
-        okk = not offenders and g.exit not in reach
-        detail = ''
-        if offenders:
-            detail = f'`{norm(offenders[0][0].ast)}` happens'
-        elif g.exit in reach:
-            detail = 'the handler returns normally'
-        rep.check(okk, 'C06.R3', key(fi, f'requires {field}={want}'),
-                  f'without {field} {"set" if want else "clear"} the handler '
-                  'only raises',
-                  f'with {field} {"unset" if want else "set"} {detail} '
-                  'instead of a protocol error', k.loc(fi, fi.node))
+    state_guards(k, 'C06.R3', STATE)
     # enabling flags are switched on only at the state transition that
     # legitimises the message (who-may-write + ordering)
     ENABLE = [
@@ -861,6 +856,73 @@ def r4(k: Kit) -> None:
               f'single-role requests {sorted(both)} handled on SSHChannel')
 
 
+def state_guards(k: Kit, rule: str, rows) -> None:
+    """For each (handler, field, wanted truth): without the field in that
+    state the handler does nothing but raise."""
+    rep = k.rep
+    for qual, field, want in rows:
+        fi = k.func(qual)
+        g = k.cfg(fi)
+
+        def blocked(a, b, lab, field=field, want=want):
+            x = g.nodes[a]
+            if x.kind == 'atom' and dotted(x.ast) == field:
+                return lab is want
+            rl = role_of_edge(x, lab)
+            # `_wait == 'auth_methods'` early exit is a separate legal state
+            if rl and isinstance(x.ast, ast.Compare):
+                return True
+            return False
+        reach = g.reachable(g.entry, blocked_edge=blocked, follow_exc=False)
+        offenders = [(g.nodes[x], effects(g, g.nodes[x])) for x in sorted(reach)
+                     if effects(g, g.nodes[x])]
+        okk = not offenders and g.exit not in reach
+        detail = ''
+        if offenders:
+            detail = f'`{norm(offenders[0][0].ast)}` happens'
+        elif g.exit in reach:
+            detail = 'the handler returns normally'
+        rep.check(okk, rule, key(fi, f'requires {field}={want}'),
+                  f'without {field} {"set" if want else "clear"} the handler '
+                  'only raises',
+                  f'with {field} {"unset" if want else "set"} {detail} '
+                  'instead of a protocol error', k.loc(fi, fi.node))
+
+
+def r5(k: Kit) -> None:
+    """An answered auth request leaves no handler behind."""
+    rep = k.rep
+    rep.rule('C06.R5', 'the server functions that answer a USERAUTH_REQUEST '
+             '(send_userauth_failure, send_userauth_success) clear the '
+             'installed per-request auth handler (self._auth = None) on every '
+             'path to the reply: otherwise method-specific messages 60..79 '
+             'sent with no request outstanding are still dispatched to the '
+             'stale handler by the receive gate (row "auth-range without '
+             'auth rejected" of R1 assumes this)')
+    for name, msg in (('send_userauth_failure', 'MSG_USERAUTH_FAILURE'),
+                      ('send_userauth_success', 'MSG_USERAUTH_SUCCESS')):
+        fi = k.func(CONN + name)
+        g = k.cfg(fi)
+        clears = [n.id for n, v in k.stores_to(fi, 'self._auth')
+                  if isinstance(v, ast.Constant) and v.value is None]
+        sends = [n for n, c in k.calls_named(fi, 'send_packet', 'self')
+                 if c.args and (dotted(c.args[0]) or '') == msg]
+        rep.check(bool(sends), 'C06.R5', key(fi, f'sends {msg}'),
+                  'reply site found', f'{msg} send site not found',
+                  fi.loc(fi.node))
+        for sn in sends:
+            before = g.path(g.entry, sn.id, blocked_nodes=clears) is None
+            after = g.path(sn.id, g.exit, blocked_nodes=clears,
+                           follow_exc=False) is None
+            rep.check(bool(clears) and (before or after), 'C06.R5',
+                      key(fi, 'handler cleared with the reply'),
+                      'self._auth = None on every path through the reply',
+                      f'{name} answers the request but can leave self._auth '
+                      'installed: a later method-specific auth message is '
+                      'processed although no request is outstanding',
+                      k.loc(fi, sn))
+
+
 def run(idx, rep, tier):
     k = Kit(idx, rep)
     rep.assumptions += NOT_DECIDED
@@ -870,3 +932,4 @@ def run(idx, rep, tier):
     r2(k)
     r3(k)
     r4(k)
+    r5(k)
